@@ -61,21 +61,67 @@ Proof.
   destruct i as [|[|i]]; try lia; destruct j as [|[|j]]; try lia; apply c_eq; vm_compute; ring.
 Qed.
 
-(* ---------- finding (since 9255946): a multi-qubit pulse mapped onto the whole register with an identifier mapping
-   (or an additional noise Hamiltonian) is no longer returned by the shortcut and util.tensor_insert is then called
-   without arguments: the model, like the code, raises instead of producing the renamed / augmented pulse ---------- *)
+(* ---------- a multi-qubit pulse mapped onto the whole register with an identifier mapping or an additional noise
+   Hamiltonian (no shortcut since 9255946): extended like any other input since e379e51; between the two commits
+   util.tensor_insert was called without arguments and raised ---------- *)
 From Coq Require Import String.
 From FF Require Import Model.Remap Model.Extend.
 Local Open Scope string_scope.
 Definition fr_pulse : pdesc := mkPdesc 4 ["a"] ["n"] "Pauli" 0 false false None false false false false.
-Example full_register_refuted :
-  extend [mkEntry fr_pulse (QTup [0; 1]) (Some [("a", "A"); ("n", "Nn")])] None 2 None None None None = Raise ErrNoArgs
-  /\ extend [mkEntry fr_pulse (QTup [0; 1]) None] None 2 (Some (4, ["extra"])) None None None = Raise ErrNoArgs
+Example full_register_ok :
+  (exists pl, extend [mkEntry fr_pulse (QTup [0; 1]) (Some [("a", "A"); ("n", "Nn")])] None 2 None None None None = Extended pl
+      /\ pl_N pl = 2 /\ pl_c_ids pl = ["A"] /\ pl_n_ids pl = ["Nn"] /\ pl_steps pl = []
+      /\ pl_c_src pl = [FromPulse 0 0] /\ pl_n_src pl = [FromPulse 0 0])
+  /\ (exists pl, extend [mkEntry fr_pulse (QTup [1; 0]) None] None 2 (Some (4, ["extra"])) None None None = Extended pl
+      /\ pl_remaps pl = [[1; 0]] /\ pl_c_ids pl = ["a_01"] /\ pl_n_ids pl = ["extra"; "n_01"]
+      /\ pl_n_src pl = [Additional 0; FromPulse 0 0] /\ pl_steps pl = [])
   /\ extend [mkEntry fr_pulse (QTup [0; 1]) None] None 2 None None None None = ReturnSame [].
-Proof. repeat split; vm_compute; reflexivity. Qed.
-(* the single-qubit analogue works: the pulse is rebuilt with the new identifiers *)
-Example full_register_single_ok :
-  exists pl, extend [mkEntry (mkPdesc 2 ["a"] ["n"] "Pauli" 0 false false None false false false false) (QInt 0)
-                       (Some [("a", "A"); ("n", "Nn")])] None 2 None None None None = Extended pl
-             /\ pl_c_ids pl = ["A"] /\ pl_n_ids pl = ["Nn"] /\ pl_N pl = 1.
-Proof. eexists. split. vm_compute. reflexivity. repeat split. Qed.
+Proof.
+  split; [|split].
+  - eexists. split. vm_compute. reflexivity. repeat split.
+  - eexists. split. vm_compute. reflexivity. repeat split.
+  - vm_compute. reflexivity.
+Qed.
+Example full_register_prefix_refuted :
+  extend_prefix [mkEntry fr_pulse (QTup [0; 1]) (Some [("a", "A"); ("n", "Nn")])] None 2 None None None None = Raise ErrNoArgs
+  /\ extend_prefix [mkEntry fr_pulse (QTup [0; 1]) None] None 2 (Some (4, ["extra"])) None None None = Raise ErrNoArgs.
+Proof. split; vm_compute; reflexivity. Qed.
+
+(* the fixed code never calls tensor_insert without arguments, for any input *)
+Lemma map_ids_err ids m qs e : map_ids ids m qs = inl e -> e = ErrKey \/ e = ErrDupMap.
+Proof.
+  unfold map_ids. destruct m as [mm|].
+  - destruct (lookup_all mm ids) as [l|]. destruct (nodup_str l); intros H; inversion H; auto. intros H; inversion H; auto.
+  - destruct (nodup_str _); intros H; inversion H; auto.
+Qed.
+Lemma ids_of_blocks_fixed_err N bl e : ids_of_blocks true N bl = inl e -> e = ErrKey \/ e = ErrDupMap.
+Proof.
+  induction bl as [|[[p qs] m] r IH]; simpl; intros H. discriminate.
+  destruct (map_ids (pd_cids p) m qs) eqn:E1. inversion H; subst. eapply map_ids_err; eauto.
+  destruct (map_ids (pd_nids p) m qs) eqn:E2. inversion H; subst. eapply map_ids_err; eauto.
+  destruct (ids_of_blocks true N r) as [e'|[cs ns]]. inversion H; subst. auto. discriminate.
+Qed.
+Lemma parse_entry_err dq acc e : (fst acc = None \/ fst acc = Some ErrRemap) ->
+  fst (parse_entry dq acc e) = None \/ fst (parse_entry dq acc e) = Some ErrRemap.
+Proof.
+  destruct acc as [er ps]. simpl. intros [->| ->]; [|right; reflexivity].
+  unfold parse_entry. destruct (e_q e) as [q|[|q [|q' qs]]]; simpl; auto;
+    repeat match goal with |- context [if ?x then _ else _] => destruct x; simpl; auto end.
+Qed.
+Lemma parse_err dq entries acc : (fst acc = None \/ fst acc = Some ErrRemap) ->
+  fst (fold_left (parse_entry dq) entries acc) = None \/ fst (fold_left (parse_entry dq) entries acc) = Some ErrRemap.
+Proof. revert acc. induction entries; simpl; intros acc H; auto. apply IHentries. apply parse_entry_err; auto. Qed.
+
+Theorem extend_never_noargs entries Narg dq additional cd cff om :
+  extend entries Narg dq additional cd cff om <> Raise ErrNoArgs.
+Proof.
+  unfold extend, extend_gen. intros H.
+  pose proof (parse_err dq entries (None, mkParsed [] [] []) (or_introl eq_refl)) as HP.
+  repeat match type of H with
+         | context [match ?x with _ => _ end] => destruct x eqn:?; try discriminate
+         | context [if ?x then _ else _] => destruct x eqn:?; try discriminate
+         end;
+  try (inversion H; subst;
+       match goal with E : ids_of_blocks true _ _ = inl ErrNoArgs |- _ => apply ids_of_blocks_fixed_err in E; destruct E; discriminate end).
+  simpl in HP. destruct HP as [HP|HP]; [discriminate|]. inversion HP; subst. discriminate.
+Qed.
